@@ -46,5 +46,11 @@ package ui
 
 //@ func T
 //@   props C33
+//@   pure
 //@   ensures len(s) == 0 ==> ref(result) == 0
 //@   ensures len(s) > 0 ==> len(result) == 1 && result[0] != nil && result[0].Text === s
+
+// the ANSI rendering of a text (used by doc:find): reads the text, writes nothing
+//@ func Text.String
+//@   trusted
+//@   pure
